@@ -17,8 +17,8 @@ func init() {
 	core.Register(&core.Check{
 		ID: "C26", Level: "other", Title: "BTC coin selection conserves UTXO value",
 		Technique: "paired-update analysis by path enumeration + call ordering + value flow",
-		Explain: "CoinSelector.SortedSearch: the loop-carried pair (selection, sum) is evaluated symbolically along EVERY path of one loop iteration (paths enumerated on the CFG): the multiset of elements appended / truncated / replaced in the selection must equal the multiset of element values added to / subtracted from sum (append u ↔ +u.Value, drop the just-appended element ↔ −u.Value, replace last ↔ −last.Value + u.Value); both returns hand back that same pair. SimpleBnbSearch: at each recursive call the selection argument and the sum argument change by the same element, and the values returned are the parameters or the recursive results. Select returns the results of the two searches unchanged. chooseUtxos: on the path to the success return the selected outputs are appended to the spent set and stored (putStxos), removed from the unspent list and stored (putUtxos), both under the same (chain, key), the total returned is the selector's second result, and an empty selection is an error. makeBtcTx: the change output's value is (selector's input total) − (the payment amount handed to the selector), the fee being taken proportionally from the payment outputs. NOT decided: search optimality, the minimum-change inequality itself, the fee model.",
-		Run: runC26,
+		Explain:   "CoinSelector.SortedSearch: the loop-carried pair (selection, sum) is evaluated symbolically along EVERY path of one loop iteration (paths enumerated on the CFG): the multiset of elements appended / truncated / replaced in the selection must equal the multiset of element values added to / subtracted from sum (append u ↔ +u.Value, drop the just-appended element ↔ −u.Value, replace last ↔ −last.Value + u.Value); both returns hand back that same pair. SimpleBnbSearch: at each recursive call the selection argument and the sum argument change by the same element, and the values returned are the parameters or the recursive results. Select returns the results of the two searches unchanged. chooseUtxos: on the path to the success return the selected outputs are appended to the spent set and stored (putStxos), removed from the unspent list and stored (putUtxos), both under the same (chain, key), the total returned is the selector's second result, and an empty selection is an error. makeBtcTx: the change output's value is (selector's input total) − (the payment amount handed to the selector), the fee being taken proportionally from the payment outputs. NOT decided: search optimality, the minimum-change inequality itself, the fee model.",
+		Run:       runC26,
 	})
 }
 
@@ -164,12 +164,8 @@ func runC26(c *core.Ctx) {
 		if x, neq, ok := ir.NilCmp(cd.V); ok && isResult(x) {
 			return true, neq
 		}
-		if b, ok := cd.V.(*ssa.BinOp); ok && b.Op == token.EQL && eng.IsLenOf(isResult)(b.X) {
-			if k, okk := ir.ConstInt(b.Y); okk && k == 0 {
-				return true, false
-			}
-		}
-		return false, false
+		// len(result) != 0 in any of its integer forms (== 0, < 1, > 0, >= 1 …)
+		return relGuard("len(selection) != 0", eng.IsLenOf(isResult), isConstInt(0), token.NEQ).G(cd)
 	}}, succ, "success return", nil)
 	// stxos.Utxos = append(stxos.Utxos, result...) then putStxos(stxos)
 	okAppend := false
@@ -216,11 +212,20 @@ func runC26(c *core.Ctx) {
 	c.Decide(okKey, "C26.unspent-removed", cu, "unspent and spent sets are read and written under one (chain, redeem key)", c.P.Rel(cu.Pos()), "")
 	// the removal loop removes elements matched against the selected outputs: the inner comparison involves the selected element's Op
 	okRm := false
-	for _, cd := range ir.Conds(cu) {
-		if b, ok := cd.V.(*ssa.BinOp); ok && (b.Op == token.NEQ || b.Op == token.EQL) {
-			l, r := calleeNamed(b.X, "String"), calleeNamed(b.Y, "String")
-			if l != nil && r != nil {
-				okRm = true
+	// (the loop may live in chooseUtxos itself or in a same-package helper it calls)
+	scan := []*ssa.Function{cu}
+	for _, ci := range ir.Calls(cu, nil) {
+		if h := ci.Common().StaticCallee(); h != nil && h != cu && h.Pkg == cu.Pkg && len(h.Blocks) > 0 {
+			scan = append(scan, h)
+		}
+	}
+	for _, f := range scan {
+		for _, cd := range ir.Conds(f) {
+			if b, ok := cd.V.(*ssa.BinOp); ok && (b.Op == token.NEQ || b.Op == token.EQL) {
+				l, r := calleeNamed(b.X, "String"), calleeNamed(b.Y, "String")
+				if l != nil && r != nil {
+					okRm = true
+				}
 			}
 		}
 	}
@@ -243,7 +248,10 @@ func runC26(c *core.Ctx) {
 					continue
 				}
 				// out.Value = sum − amountSum (the fee is deducted proportionally from the payment outputs)
-				isSum := func(v ssa.Value) bool { cl, idx := ir.CallOf(v); return cl != nil && idx == 1 && ir.CalleeIs(cl, cuObj) }
+				isSum := func(v ssa.Value) bool {
+					cl, idx := ir.CallOf(v)
+					return cl != nil && idx == 1 && ir.CalleeIs(cl, cuObj)
+				}
 				if !isSum(sub.X) {
 					continue
 				}
